@@ -13,7 +13,11 @@ A world module provides:
 
 Execution never draws randomness and never reads a clock: everything that varies is in the plan.
 """
+import contextlib
 import hashlib
+import os
+import signal
+import threading
 import json
 
 
@@ -98,14 +102,53 @@ def h64(s):
     return int.from_bytes(hashlib.blake2b(s, digest_size=8).digest(), "big")
 
 
+class RunTimeout(BaseException):
+    """raised by the per-run alarm (a BaseException: `except Exception` in a world does not swallow it)"""
+
+
+RUN_TIMEOUT_S = float(os.environ.get("VERIF_RUN_TIMEOUT", "90"))
+
+
+@contextlib.contextmanager
+def run_deadline():
+    """A library call that never returns is a finding, not a harness problem: one simulated run normally takes
+    milliseconds to a few seconds, so a real-time alarm far beyond that (90 s) ends it.  Only the verdict
+    "did not return" depends on the wall clock; everything a run that does return observes stays a function of the plan."""
+    if threading.current_thread() is not threading.main_thread() or not hasattr(signal, "setitimer"):
+        yield
+        return
+
+    def on_alarm(signum, frame):
+        raise RunTimeout()
+
+    old = signal.signal(signal.SIGALRM, on_alarm)
+    signal.setitimer(signal.ITIMER_REAL, RUN_TIMEOUT_S)
+    try:
+        yield
+    finally:
+        signal.setitimer(signal.ITIMER_REAL, 0)
+        signal.signal(signal.SIGALRM, old)
+
+
+def execute_guarded(world, plan, ctx):
+    """world.execute under the per-run alarm; Abort ends a run quietly, a timeout becomes a violation of the
+    properties under evaluation (all the world's properties when none was singled out)"""
+    try:
+        with run_deadline():
+            world.execute(plan, ctx)
+    except Abort:
+        pass
+    except RunTimeout:
+        for prop in (ctx.props or getattr(world, "PROPS", [])):
+            ctx.violate(prop, "did-not-return", {"step": ctx.step, "after_seconds": RUN_TIMEOUT_S,
+                                                "op": (plan["steps"][ctx.step].get("op") if 0 <= ctx.step < len(plan.get("steps", [])) else None)})
+
+
 def run_plan(world, plan, keep_log=False):
     """execute one plan; returns ctx.  Exceptions other than Abort are harness errors unless the
     world converted them into violations itself."""
     ctx = Ctx(keep_log=keep_log)
-    try:
-        world.execute(plan, ctx)
-    except Abort:
-        pass
+    execute_guarded(world, plan, ctx)
     return ctx
 
 
